@@ -160,6 +160,7 @@ def generate_model(u, outroot):
             shutil.copy(os.path.join(MODEL_SRC, "cms", "vp_cms.h"), os.path.join(root, "vp_cms.h"))
             for h in CMS_FW_HEADERS:
                 _write(os.path.join(root, h), '#pragma once\n#include "vp_cms.h"\n')
+        _write(os.path.join(root, "vp_userfn.h"), "#pragma once\ninline double vp_twice(double x) { return 2.0 * x; }\n")
         shutil.copy(os.path.join(MODEL_SRC, "core", "vp_core.h"), os.path.join(root, "vp_core.h"))
         shutil.copy(os.path.join(MODEL_SRC, "core", "vp_pch.h"), os.path.join(root, "vp_pch.h"))
 
